@@ -57,6 +57,7 @@ func drive(args []string) error {
 	seed := fs.Int64("seed", 1, "")
 	rounds := fs.Int("rounds", 10, "")
 	gated := fs.Int("gated", 4, "gated rounds: a mining request is made to queue on chainLock behind an InsertBlock that moves the head")
+	cuts := fs.Int("cuts", 10, "rounds in which a confirm packet cuts the head's fork while a reader outside chainLock spins on CurrentBlock()")
 	stables := fs.Int("stables", 3, "rounds in which a whole fork becomes stable at once and peers' confirms for its blocks arrive while the background goroutine writes this node's own")
 	dups := fs.Int("dups", 6, "rounds in which two confirm packets carrying the two encodings of ONE deputy's signature are inserted at the same instant (5 deputies)")
 	if err := fs.Parse(args); err != nil {
@@ -102,6 +103,11 @@ func drive(args []string) error {
 	}
 	for g := 0; g < *stables; g++ {
 		if err := stableRound(dir, g, emit); err != nil {
+			return err
+		}
+	}
+	for g := 0; g < *cuts; g++ {
+		if err := cutRound(dir, g, emit); err != nil {
 			return err
 		}
 	}
@@ -187,9 +193,13 @@ func drive(args []string) error {
 			}
 			fl["signers"] = signers
 		}
+		var lastSeq, firstSeq uint64
 		consensus.VerifEngineHook = func(dp *consensus.DPoVP, ev consensus.VerifEngineEvent) {
 			if dp != n.DP {
 				return
+			}
+			if firstSeq == 0 {
+				firstSeq = ev.Seq
 			}
 			fl := map[string]interface{}{"ev": ev.Op, "seq": ev.Seq, "b": -1, "exists": false}
 			if ev.Op != "MineBlock" {
@@ -201,7 +211,30 @@ func drive(args []string) error {
 			}
 			project(fl)
 			evs = append(evs, fl) // under chainLock
+			atomic.StoreUint64(&lastSeq, ev.Seq)
 		}
+		// a reader outside chainLock (RPC, miner and network threads read the head like this): every head it sees is the head
+		// after one of the engine calls that were in progress or completed around the read
+		type headRead struct {
+			s0, s1 uint64
+			h      common.Hash
+		}
+		var headReads []headRead
+		stopReader := int32(0)
+		readerDone := make(chan struct{})
+		go func() {
+			defer close(readerDone)
+			var prev common.Hash
+			for atomic.LoadInt32(&stopReader) == 0 {
+				s0 := atomic.LoadUint64(&lastSeq)
+				h := n.DP.CurrentBlock().Hash()
+				s1 := atomic.LoadUint64(&lastSeq)
+				if h != prev && len(headReads) < 4000 {
+					headReads = append(headReads, headRead{s0, s1, h})
+					prev = h
+				}
+			}
+		}()
 		confirmCh := make(chan *network.BlockConfirmData, 1024)
 		sub := n.DP.SubscribeConfirm(confirmCh)
 		var emits []*network.BlockConfirmData
@@ -282,6 +315,8 @@ func drive(args []string) error {
 		}()
 		wg.Wait()
 		time.Sleep(300 * time.Millisecond) // let the engine's own background goroutines finish their confirms (not a verdict)
+		atomic.StoreInt32(&stopReader, 1)
+		<-readerDone
 		close(done)
 		sub.Unsubscribe()
 		consensus.VerifEngineHook = nil
@@ -317,6 +352,29 @@ func drive(args []string) error {
 		}
 		totalEmits += len(emits)
 		emu.Unlock()
+		// the heads the unlocked reader saw, each with the heads of the calls around it (assembled, not judged, here)
+		for _, hr := range headReads {
+			got := -1
+			if id, ok := x.get(hr.h); ok {
+				got = id
+			}
+			window := []int{}
+			if hr.s0 == 0 && firstSeq > 0 { // read before the first call's hook ran (sequence numbers are process-wide)
+				hr.s0 = firstSeq - 1
+			}
+			if hr.s1 == 0 && firstSeq > 0 {
+				hr.s1 = firstSeq - 1
+			}
+			for _, fl := range evs {
+				if sq := fl["seq"].(uint64); sq >= hr.s0 && sq <= hr.s1+1 {
+					window = append(window, fl["head"].(int))
+				}
+			}
+			if hr.s0 < firstSeq {
+				window = append(window, 0) // before the first call of this round: genesis
+			}
+			emit(map[string]interface{}{"ev": "Read", "beh": r, "got": got, "window": window})
+		}
 		n.Destroy()
 	}
 	fmt.Printf("{\"rounds\": %d, \"lines\": %d, \"engine_events\": %d, \"emitted_confirms\": %d}\n", *rounds, lines, totalEvents, totalEmits)
@@ -678,7 +736,7 @@ func stableRound(dir string, g int, emit func(map[string]interface{})) error {
 	for t := 0; t < 200 && atomic.LoadInt64(&holds) < 19; t++ { // until the background goroutine has been through its blocks
 		time.Sleep(10 * time.Millisecond)
 	}
-	time.Sleep(60 * time.Millisecond)
+	time.Sleep(150 * time.Millisecond)
 	atomic.StoreInt32(&armed, 0)
 	wg.Wait()
 	consensus.VerifSignGate = nil
@@ -695,6 +753,31 @@ func stableRound(dir string, g int, emit func(map[string]interface{})) error {
 	final["published"] = len(pub)
 	final["rendezvous"] = []int64{atomic.LoadInt64(&sgates), atomic.LoadInt64(&holds), atomic.LoadInt64(&met)}
 	final["own_missing"] = ownMissing(pub, final["signers"].(map[string][]int), func(h common.Hash) (int, bool) { id, ok := byHash[h]; return id, ok })
+	// the blocks the background goroutine signed (B1..B24 unless mined by this node): its confirm for each of them is
+	// published once - in every sequential order of the background goroutine's work
+	pubCount := map[int]int{}
+	for _, c := range pub {
+		if id, ok := byHash[c.Hash]; ok {
+			pubCount[id]++
+		}
+	}
+	twice, never := []int{}, []int{}
+	for i := la; i < la+lb-1; i++ {
+		id := i + 1
+		signed := false
+		for _, q := range final["signers"].(map[string][]int)[strconv.Itoa(id)] {
+			if q == self {
+				signed = true
+			}
+		}
+		if signed && pubCount[id] == 0 {
+			never = append(never, id)
+		}
+		if pubCount[id] > 1 {
+			twice = append(twice, id)
+		}
+	}
+	final["pub_twice"], final["pub_never"] = twice, never
 	close(done)
 	sub.Unsubscribe()
 	sort.Slice(evs, func(i, j int) bool { return evs[i]["seq"].(uint64) < evs[j]["seq"].(uint64) })
@@ -705,6 +788,116 @@ func stableRound(dir string, g int, emit func(map[string]interface{})) error {
 		emit(fl)
 	}
 	emit(final)
+	return nil
+}
+
+// cutRound: five deputies.  The node's head is on fork A (2a-3a-4a on the stable block 1) when a confirm packet makes block 2b
+// of the shorter fork B (2b-3b) stable: fork A is cut and the head moves to 3b in ONE engine call.  A reader outside
+// chainLock spins on CurrentBlock(): the heads it sees are 4a and then 3b - never anything in between.
+func cutRound(dir string, g int, emit func(map[string]interface{})) error {
+	const nd5 = 5
+	w := node.NewWorld(nd5, 1000)
+	w.GenesisTime = uint32(time.Now().Unix()) - 120
+	builder := w.NewNode(filepath.Join(dir, fmt.Sprintf("cbuilder%d", g)))
+	defer builder.Destroy()
+	n := w.NewNode(filepath.Join(dir, fmt.Sprintf("cnut%d", g)))
+	defer n.Destroy()
+	// ids: 1; 2,3,4 = fork A; 5,6 = fork B
+	parentOf := []int{0, 1, 2, 3, 1, 5}
+	rankOf := []int{0, 2, 3, 4, 3, 4}
+	blocks := []*types.Block{builder.Genesis}
+	byHash := map[common.Hash]int{builder.Genesis.Hash(): 0}
+	for i := range parentOf {
+		b, _, err := builder.Build(blocks[parentOf[i]], rankOf[i], 0, nil, fmt.Sprintf("c%d-%d", g, i))
+		if err != nil {
+			return fmt.Errorf("cut round build: %v", err)
+		}
+		blocks = append(blocks, b)
+		byHash[b.Hash()] = i + 1
+	}
+	type seqHead struct {
+		seq  uint64
+		head int
+	}
+	var heads []seqHead
+	var lastSeq uint64
+	consensus.VerifEngineHook = func(dp *consensus.DPoVP, ev consensus.VerifEngineEvent) {
+		if dp != n.DP {
+			return
+		}
+		heads = append(heads, seqHead{ev.Seq, byHash[n.DP.CurrentBlock().Hash()]}) // under chainLock
+		atomic.StoreUint64(&lastSeq, ev.Seq)
+	}
+	type headRead struct {
+		s0, s1 uint64
+		h      common.Hash
+	}
+	var reads []headRead
+	stop := int32(0)
+	done := make(chan struct{})
+	go func() {
+		defer close(done)
+		var prev common.Hash
+		for atomic.LoadInt32(&stop) == 0 {
+			s0 := atomic.LoadUint64(&lastSeq)
+			h := n.DP.CurrentBlock().Hash()
+			s1 := atomic.LoadUint64(&lastSeq)
+			if h != prev && len(reads) < 1000 {
+				reads = append(reads, headRead{s0, s1, h})
+				prev = h
+			}
+		}
+	}()
+	others := func(id int) []types.SignData { // the three deputies that are neither the miner of block id nor this node
+		var out []types.SignData
+		for r := 0; r < nd5; r++ {
+			if r+1 != self && r != rankOf[id-1] {
+				out = append(out, node.Sign(blocks[id].Hash(), w.Keys[r], (g+r)%2))
+			}
+		}
+		return out
+	}
+	n.DP.InsertBlock(node.Copy(blocks[1], nil))
+	n.DP.InsertConfirms(blocks[1].Height(), blocks[1].Hash(), others(1))
+	for _, id := range []int{2, 3, 4, 5, 6} {
+		n.DP.InsertBlock(node.Copy(blocks[id], nil))
+	}
+	time.Sleep(2 * time.Millisecond)
+	n.DP.InsertConfirms(blocks[5].Height(), blocks[5].Hash(), others(5)) // 2b becomes stable: fork A is cut
+	time.Sleep(5 * time.Millisecond)
+	atomic.StoreInt32(&stop, 1)
+	<-done
+	consensus.VerifEngineHook = nil
+	emit(map[string]interface{}{"ev": "reset", "beh": 4000 + g, "nd": nd5, "self": self, "parent": parentOf, "miner": []int{1, 3, 4, 5, 4, 5},
+		"stable": 0, "head": 0, "unconf": []int{}, "chain": []int{}})
+	first := uint64(0)
+	if len(heads) > 0 {
+		first = heads[0].seq
+	}
+	for _, hr := range reads {
+		if hr.s0 == 0 && first > 0 {
+			hr.s0 = first - 1
+		}
+		if hr.s1 == 0 && first > 0 {
+			hr.s1 = first - 1
+		}
+		window := []int{}
+		for _, sh := range heads {
+			if sh.seq >= hr.s0 && sh.seq <= hr.s1+1 {
+				window = append(window, sh.head)
+			}
+		}
+		if hr.s0 < first {
+			window = append(window, 0)
+		}
+		got := -1
+		if id, ok := byHash[hr.h]; ok {
+			got = id
+		}
+		emit(map[string]interface{}{"ev": "Read", "beh": 4000 + g, "got": got, "window": window})
+	}
+	final := byHash[n.DP.CurrentBlock().Hash()]
+	emit(map[string]interface{}{"ev": "Read", "beh": 4000 + g, "got": final, "window": []int{6}}) // the cut happened: the head ends on 3b
 	return nil
 }
 
